@@ -189,4 +189,475 @@ theorem evalBytes_reprBytes (b : List Nat) (h : ∀ c ∈ b, c < 256) :
     (fun c out rest hc => run_escBytes _ c out rest hq hc) b [] [quoteFor b] h]
   simp [run_close, finish]
 
+/-! ### regex terminals: the raw literal `Terminal.format_as_spec` prints is read back as the
+spelled pattern, and the spelled pattern is the pattern up to `\xNN` escapes -/
+
+theorem runR_cons (b : Bool) (q : Nat) (st st' : RSt) (c : Nat) (cs : List Nat)
+    (h : stepR b q st c = some st') : runR b q st (c :: cs) = runR b q st' cs := by
+  simp [runR, h]
+
+theorem hexDigit_range (d : Nat) (h : d < 16) :
+    (48 ≤ hexDigit d ∧ hexDigit d ≤ 57) ∨ (97 ≤ hexDigit d ∧ hexDigit d ≤ 102) := by
+  unfold hexDigit; split <;> omega
+
+/-- a character that stands for itself -/
+theorem runR_plain (b : Bool) (q c : Nat) (out rest : List Nat) (h1 : c ≠ q) (h2 : c ≠ 92)
+    (h3 : rawCharOk b c = true) :
+    runR b q ⟨.normal, out⟩ (c :: rest) = runR b q ⟨.normal, c :: out⟩ rest :=
+  runR_cons _ _ _ _ _ _ (by simp [stepR, h1, h2, h3])
+
+/-- a backslash and the character after it -/
+theorem runR_pair (b : Bool) (q c : Nat) (out rest : List Nat) (hq : q ≠ 92)
+    (h : rawEscOk b c = true) :
+    runR b q ⟨.normal, out⟩ (92 :: c :: rest) = runR b q ⟨.normal, c :: 92 :: out⟩ rest := by
+  have h1 : stepR b q ⟨.normal, out⟩ 92 = some ⟨.esc, out⟩ := by
+    have : ¬ (92 = q) := fun e => hq e.symm
+    simp [stepR, this]
+  have h2 : stepR b q ⟨.esc, out⟩ c = some ⟨.normal, c :: 92 :: out⟩ := by simp [stepR, h]
+  rw [runR_cons _ _ _ _ _ _ h1, runR_cons _ _ _ _ _ _ h2]
+
+theorem rawCharOk_hexDigit (b : Bool) (d : Nat) (h : d < 16) : rawCharOk b (hexDigit d) = true := by
+  have := hexDigit_range d h
+  have h0 : hexDigit d ≠ 0 := by omega
+  have h10 : hexDigit d ≠ 10 := by omega
+  have h13 : hexDigit d ≠ 13 := by omega
+  have h12 : hexDigit d ≠ 12 := by omega
+  have hs : isSurrogate (hexDigit d) = false := by
+    simp only [isSurrogate, Bool.and_eq_false_iff, decide_eq_false_iff_not]; omega
+  cases b
+  · have : hexDigit d < 1114112 := by omega
+    simp [rawCharOk, h0, h10, h13, h12, hs, this]
+  · have : hexDigit d < 128 := by omega
+    simp [rawCharOk, h0, h10, h13, this]
+
+/-- `\xNN` is read as its four characters -/
+theorem runR_hexEsc (b : Bool) (q c : Nat) (out rest : List Nat) (hq : q = 39 ∨ q = 34) :
+    runR b q ⟨.normal, out⟩ (hexEsc c ++ rest)
+      = runR b q ⟨.normal, (hexEsc c).reverse ++ out⟩ rest := by
+  have hq92 : q ≠ 92 := by omega
+  have hx : rawEscOk b 120 = true := by cases b <;> decide
+  have d1 : c / 16 % 16 < 16 := Nat.mod_lt _ (by omega)
+  have d2 : c % 16 < 16 := Nat.mod_lt _ (by omega)
+  have r1 := hexDigit_range _ d1
+  have r2 := hexDigit_range _ d2
+  simp only [hexEsc, hex2, List.cons_append, List.nil_append]
+  rw [runR_pair b q 120 out _ hq92 hx,
+      runR_plain b q _ _ _ (by omega) (by omega) (rawCharOk_hexDigit b _ d1),
+      runR_plain b q _ _ _ (by omega) (by omega) (rawCharOk_hexDigit b _ d2)]
+  simp
+
+theorem needsSpell_false {quote : Option Nat} {a : Bool} {c : Nat} (h : needsSpell quote a c = false) :
+    quote ≠ some c ∧ c ≠ 10 ∧ c ≠ 13 ∧ (a = true → 32 ≤ c ∧ c ≤ 126) := by
+  simp only [needsSpell, Bool.or_eq_false_iff, beq_eq_false_iff_ne, ne_eq, Bool.and_eq_false_iff,
+    Bool.not_eq_false', Bool.and_eq_true, decide_eq_true_eq] at h
+  obtain ⟨⟨⟨h1, h2⟩, h3⟩, h4⟩ := h
+  refine ⟨h1, h2, h3, fun ha => ?_⟩
+  cases h4 with
+  | inl h => exact absurd ha (by simp [h])
+  | inr h => exact h
+
+/-- an unspelled character of an expressible pattern may stand for itself in the literal -/
+theorem rawCharOk_of (b : Bool) (quote : Option Nat) (c : Nat) (hp : patCharOk b c = true)
+    (hn : needsSpell quote b c = false) (hff : b = false → c ≠ 12) : rawCharOk b c = true := by
+  obtain ⟨_, h10, h13, hpr⟩ := needsSpell_false hn
+  cases b
+  · simp only [patCharOk, Bool.false_eq_true, if_false, Bool.and_eq_true, bne_iff_ne, ne_eq,
+      decide_eq_true_eq, Bool.not_eq_true'] at hp
+    obtain ⟨⟨⟨h0, _⟩, hlt⟩, hs⟩ := hp
+    simp [rawCharOk, h0, h10, h13, hff rfl, hlt, hs]
+  · have := hpr rfl
+    have h0 : c ≠ 0 := by omega
+    have hlt : c < 128 := by omega
+    simp [rawCharOk, h0, h10, h13, hlt]
+
+theorem rawEscOk_of (b : Bool) (quote : Option Nat) (c : Nat) (hp : patCharOk b c = true)
+    (hn : needsSpell quote b c = false) : rawEscOk b c = true := by
+  obtain ⟨_, h10, h13, hpr⟩ := needsSpell_false hn
+  cases b
+  · simp only [patCharOk, Bool.false_eq_true, if_false, Bool.and_eq_true, bne_iff_ne, ne_eq,
+      decide_eq_true_eq, Bool.not_eq_true'] at hp
+    obtain ⟨⟨⟨h0, _⟩, hlt⟩, hs⟩ := hp
+    simp [rawEscOk, h0, h10, h13, hlt, hs]
+  · have := hpr rfl
+    have h0 : c ≠ 0 := by omega
+    have hlt : c < 128 := by omega
+    simp [rawEscOk, h0, h10, h13, hlt]
+
+/-- the unspelled character is not the delimiter: either the delimiter is spelled, or the pattern
+    does not hold it -/
+theorem ne_quote_of (quote : Option Nat) (b : Bool) (q c : Nat)
+    (hq : quote = some q ∨ c ≠ q) (hn : needsSpell quote b c = false) : c ≠ q := by
+  cases hq with
+  | inr h => exact h
+  | inl h =>
+    obtain ⟨h1, _⟩ := needsSpell_false hn
+    intro e; subst e; exact h1 h
+
+/-- the reader over the spelled pattern: every character of it becomes part of the value -/
+theorem runR_spellRegex (b : Bool) (quote : Option Nat) (q : Nat) (hq : q = 39 ∨ q = 34) :
+    ∀ (pat : List Nat), regexWf b pat = true → (b = false → noBareFF pat = true) →
+      (quote = some q ∨ ∀ x ∈ pat, x ≠ q) → ∀ (out rest : List Nat),
+      runR b q ⟨.normal, out⟩ (spellRegex quote b pat ++ rest)
+        = runR b q ⟨.normal, (spellRegex quote b pat).reverse ++ out⟩ rest := by
+  have hq92 : q ≠ 92 := by omega
+  intro pat
+  fun_induction spellRegex quote b pat with
+  | case1 => intro _ _ _ out rest; simp
+  | case2 c hn =>
+    intro _ _ _ out rest; exact runR_hexEsc b q c out rest hq
+  | case3 c hn =>
+    intro hw hff hqq out rest
+    simp only [regexWf, Bool.and_eq_true, bne_iff_ne, ne_eq] at hw
+    have hn' : needsSpell quote b c = false := by simpa using hn
+    have hc : c ≠ q := ne_quote_of quote b q c (hqq.imp id (fun h => h c (by simp))) hn'
+    have hf : b = false → c ≠ 12 := fun hb => by
+      have := hff hb; simpa [noBareFF] using this
+    simpa using runR_plain b q c out rest hc hw.1 (rawCharOk_of b quote c hw.2 hn' hf)
+  | case4 c rest' ih =>
+    intro hw hff hqq out rest
+    simp only [regexWf, if_true, Bool.and_eq_true] at hw
+    have hff' : b = false → noBareFF rest' = true := fun hb => by
+      have := hff hb; simpa [noBareFF] using this
+    have hqq' : quote = some q ∨ ∀ x ∈ rest', x ≠ q :=
+      hqq.imp id (fun h x hx => h x (by simp [hx]))
+    rw [List.append_assoc]
+    by_cases hn : needsSpell quote b c = true
+    · simp only [hn, if_true]
+      rw [runR_hexEsc b q c out _ hq, ih hw.2 hff' hqq']
+      simp [List.reverse_append]
+    · have hn' : needsSpell quote b c = false := by simpa using hn
+      simp only [hn', Bool.false_eq_true, if_false, List.cons_append, List.nil_append]
+      rw [runR_pair b q c out _ hq92 (rawEscOk_of b quote c hw.1 hn'), ih hw.2 hff' hqq']
+      simp [List.reverse_append]
+  | case5 x c rest' hx ih =>
+    intro hw hff hqq out rest
+    simp only [regexWf, hx, if_false, Bool.and_eq_true] at hw
+    have hff' : b = false → noBareFF (c :: rest') = true := fun hb => by
+      have := hff hb; simp only [noBareFF, hx, if_false, Bool.and_eq_true] at this; exact this.2
+    have hqq' : quote = some q ∨ ∀ y ∈ c :: rest', y ≠ q :=
+      hqq.imp id (fun h y hy => h y (List.mem_cons_of_mem _ hy))
+    rw [List.append_assoc]
+    by_cases hn : needsSpell quote b x = true
+    · simp only [hn, if_true]
+      rw [runR_hexEsc b q x out _ hq, ih hw.2 hff' hqq']
+      simp [List.reverse_append]
+    · have hn' : needsSpell quote b x = false := by simpa using hn
+      have hf : b = false → x ≠ 12 := fun hb => by
+        have := hff hb; simp only [noBareFF, hx, if_false, Bool.and_eq_true, bne_iff_ne] at this
+        exact this.1
+      have hxq : x ≠ q := ne_quote_of quote b q x (hqq.imp id (fun h => h x (by simp))) hn'
+      simp only [hn', Bool.false_eq_true, if_false, List.cons_append, List.nil_append]
+      rw [runR_plain b q x out _ hxq hx (rawCharOk_of b quote x hw.1 hn' hf), ih hw.2 hff' hqq']
+      simp [List.reverse_append]
+
+theorem runR_close (b : Bool) (q : Nat) (out : List Nat) :
+    runR b q ⟨.normal, out⟩ [q] = some ⟨.closed, out⟩ := by
+  simp [runR, stepR]
+
+/-- the delimiter is a quote, and it is spelled or absent from the pattern -/
+theorem regexQuote_spec (pat : List Nat) :
+    ((regexQuote pat).1 = 39 ∨ (regexQuote pat).1 = 34) ∧
+    ((regexQuote pat).2 = some (regexQuote pat).1 ∨ ∀ x ∈ pat, x ≠ (regexQuote pat).1) := by
+  cases h1 : pat.contains 39 with
+  | false =>
+    have e : regexQuote pat = (39, none) := by
+      simp only [regexQuote, h1, Bool.not_false, if_true]
+    rw [e]
+    refine ⟨Or.inl rfl, Or.inr fun x hx e => ?_⟩
+    subst e
+    have : pat.contains 39 = true := by simpa using hx
+    rw [h1] at this; exact Bool.false_ne_true this
+  | true =>
+    cases h2 : pat.contains 34 with
+    | false =>
+      have e : regexQuote pat = (34, none) := by
+        simp only [regexQuote, h1, h2, Bool.not_true, Bool.false_eq_true, if_false, Bool.not_false, if_true]
+      rw [e]
+      refine ⟨Or.inr rfl, Or.inr fun x hx e => ?_⟩
+      subst e
+      have : pat.contains 34 = true := by simpa using hx
+      rw [h2] at this; exact Bool.false_ne_true this
+    | true =>
+      have e : regexQuote pat = (39, some 39) := by
+        simp only [regexQuote, h1, h2, Bool.not_true, Bool.false_eq_true, if_false]
+      rw [e]
+      exact ⟨Or.inl rfl, Or.inl rfl⟩
+
+/-- **the printed raw literal is read back as the spelled pattern**, of the same type (str / bytes) -/
+theorem evalRaw_printRegex (b : Bool) (pat : List Nat) (hw : regexWf b pat = true)
+    (hff : b = false → noBareFF pat = true) :
+    evalRaw (printRegex b pat) = some (b, spelled b pat) := by
+  obtain ⟨hq, hqq⟩ := regexQuote_spec pat
+  have hrun := runR_spellRegex b (regexQuote pat).2 (regexQuote pat).1 hq pat hw hff hqq []
+    [(regexQuote pat).1]
+  have hQ : isQuote (regexQuote pat).1 = true := by
+    cases hq with
+    | inl h => rw [h]; decide
+    | inr h => rw [h]; decide
+  have hnotB : isB (regexQuote pat).1 = false := by
+    cases hq with
+    | inl h => rw [h]; decide
+    | inr h => rw [h]; decide
+  cases b
+  · simp only [printRegex, Bool.false_eq_true, if_false, List.cons_append, List.nil_append, evalRaw]
+    have : isR 114 = true := by decide
+    simp only [this, hQ, Bool.and_self, if_true, spelled]
+    rw [hrun, runR_close]
+    simp [finishR]
+  · simp only [printRegex, if_true, List.cons_append, List.nil_append, evalRaw]
+    have h1 : isR 114 = true := by decide
+    have h2 : isQuote 98 = false := by decide
+    have h3 : isB 98 = true := by decide
+    simp only [h1, h2, h3, hQ, Bool.and_false, Bool.false_eq_true, if_false, Bool.and_self,
+      Bool.true_or, if_true, spelled]
+    rw [hrun, runR_close]
+    simp [finishR]
+
+/-- nothing to spell: the text between the quotes is the pattern itself -/
+theorem spellRegex_id (quote : Option Nat) (a : Bool) : ∀ pat : List Nat,
+    (∀ c ∈ pat, needsSpell quote a c = false) → spellRegex quote a pat = pat := by
+  intro pat
+  fun_induction spellRegex quote a pat with
+  | case1 => intro _; rfl
+  | case2 c hn => intro h; have := h c (by simp); simp [hn] at this
+  | case3 c hn => intro _; rfl
+  | case4 c rest ih =>
+    intro h
+    have hc := h c (by simp)
+    rw [ih (fun x hx => h x (by simp [hx]))]; simp [hc]
+  | case5 x c rest hx ih =>
+    intro h
+    have hc := h x (by simp)
+    rw [ih (fun y hy => h y (List.mem_cons_of_mem _ hy))]; simp [hc]
+
+/-! #### "the same regex": the spelled pattern under the oracle assumption -/
+
+theorem atBoundary_append : ∀ (pre t : List Nat), atBoundary pre = true →
+    atBoundary (pre ++ t) = atBoundary t := by
+  intro pre
+  fun_induction atBoundary pre with
+  | case1 => intro t _; rfl
+  | case2 c =>
+    intro t h
+    have hc : c ≠ 92 := by simpa using h
+    cases t with
+    | nil => simpa [atBoundary] using hc
+    | cons x xs => simp [atBoundary, hc]
+  | case3 c rest ih =>
+    intro t h
+    have := ih t h
+    simpa [atBoundary] using this
+  | case4 b c rest hb ih =>
+    intro t h
+    have := ih t h
+    simpa [atBoundary, hb] using this
+
+theorem atBoundary_hexEsc (c : Nat) : atBoundary (hexEsc c) = true := by
+  have d1 : c / 16 % 16 < 16 := Nat.mod_lt _ (by omega)
+  have d2 : c % 16 < 16 := Nat.mod_lt _ (by omega)
+  have r1 := hexDigit_range _ d1
+  have r2 := hexDigit_range _ d2
+  have e1 : hexDigit (c / 16 % 16) ≠ 92 := by omega
+  have e2 : hexDigit (c % 16) ≠ 92 := by omega
+  simp [hexEsc, hex2, atBoundary, e1, e2]
+
+/-- under the oracle assumption the spelled pattern denotes what the pattern denotes -/
+theorem spellRegex_denotes {α : Type} (D : List Nat → α) (quote : Option Nat) (a : Bool)
+    (H : HexEscapeSound D (needsSpell quote a)) : ∀ (pat pre : List Nat),
+    (∀ c ∈ pat, needsSpell quote a c = true → c < 256) → atBoundary pre = true →
+    D (pre ++ spellRegex quote a pat) = D (pre ++ pat) := by
+  intro pat
+  fun_induction spellRegex quote a pat with
+  | case1 => intro pre _ _; rfl
+  | case2 c hn =>
+    intro pre hlt hp
+    have := (H pre [] c hp (hlt c (by simp) hn) hn).1
+    simpa using this.symm
+  | case3 c hn => intro pre _ _; rfl
+  | case4 c rest ih =>
+    intro pre hlt hp
+    have hlt' : ∀ x ∈ rest, needsSpell quote a x = true → x < 256 :=
+      fun x hx => hlt x (by simp [hx])
+    by_cases hn : needsSpell quote a c = true
+    · have h1 := (H pre rest c hp (hlt c (by simp) hn) hn).2
+      have hb : atBoundary (pre ++ hexEsc c) = true := by
+        rw [atBoundary_append pre _ hp]; exact atBoundary_hexEsc c
+      have h2 := ih (pre ++ hexEsc c) hlt' hb
+      simp only [hn, if_true]
+      rw [h1]; simpa [List.append_assoc] using h2
+    · have hb : atBoundary (pre ++ [92, c]) = true := by
+        rw [atBoundary_append pre _ hp]; simp [atBoundary]
+      have h2 := ih (pre ++ [92, c]) hlt' hb
+      simp only [hn]
+      simpa [List.append_assoc] using h2
+  | case5 x c rest hx ih =>
+    intro pre hlt hp
+    have hlt' : ∀ y ∈ c :: rest, needsSpell quote a y = true → y < 256 :=
+      fun y hy => hlt y (List.mem_cons_of_mem _ hy)
+    by_cases hn : needsSpell quote a x = true
+    · have h1 := (H pre (c :: rest) x hp (hlt x (by simp) hn) hn).1
+      have hb : atBoundary (pre ++ hexEsc x) = true := by
+        rw [atBoundary_append pre _ hp]; exact atBoundary_hexEsc x
+      have h2 := ih (pre ++ hexEsc x) hlt' hb
+      simp only [hn, if_true]
+      rw [h1]; simpa [List.append_assoc] using h2
+    · have hb : atBoundary (pre ++ [x]) = true := by
+        rw [atBoundary_append pre _ hp]; simpa [atBoundary] using hx
+      have h2 := ih (pre ++ [x]) hlt' hb
+      simp only [hn]
+      simpa [List.append_assoc] using h2
+
+/-- every character of an expressible pattern is a backslash or a legal pattern character -/
+theorem regexWf_mem (b : Bool) : ∀ pat : List Nat, regexWf b pat = true →
+    ∀ c ∈ pat, c = 92 ∨ patCharOk b c = true := by
+  intro pat
+  fun_induction regexWf b pat with
+  | case1 => intro _ c hc; simp at hc
+  | case2 c =>
+    intro h x hx
+    simp only [Bool.and_eq_true] at h
+    simp only [List.mem_singleton] at hx; subst hx; exact Or.inr h.2
+  | case3 c rest ih =>
+    intro h x hx
+    simp only [Bool.and_eq_true] at h
+    simp only [List.mem_cons] at hx
+    rcases hx with rfl | rfl | hx
+    · exact Or.inl rfl
+    · exact Or.inr h.1
+    · exact ih h.2 x hx
+  | case4 y c rest hy ih =>
+    intro h x hx
+    simp only [Bool.and_eq_true] at h
+    simp only [List.mem_cons] at hx
+    rcases hx with rfl | hx
+    · exact Or.inr h.1
+    · exact ih h.2 x (by simpa using hx)
+
+/-- what the printer spells in an expressible pattern is below 256 -/
+theorem spelled_lt_256 (b : Bool) (pat : List Nat) (hw : regexWf b pat = true) :
+    ∀ c ∈ pat, needsSpell (regexQuote pat).2 b c = true → c < 256 := by
+  intro c hc hn
+  obtain ⟨_, _⟩ := regexQuote_spec pat
+  have hq : (regexQuote pat).2 = none ∨ (regexQuote pat).2 = some 39 := by
+    unfold regexQuote; split
+    · exact Or.inl rfl
+    · split
+      · exact Or.inl rfl
+      · exact Or.inr rfl
+  cases b
+  · -- str: only the quote, `\n`, `\r`
+    simp only [needsSpell, Bool.false_and, Bool.or_false, Bool.or_eq_true, beq_iff_eq] at hn
+    rcases hq with h | h <;> rw [h] at hn <;> simp at hn <;> omega
+  · rcases regexWf_mem true pat hw c hc with rfl | h
+    · omega
+    · simpa [patCharOk] using h
+
+/-! #### the spelling is itself a model of the oracle assumption, and it is idempotent -/
+
+def quoteOk (quote : Option Nat) : Prop := quote = none ∨ quote = some 39 ∨ quote = some 34
+
+theorem spellRegex_cons_ne (quote : Option Nat) (a : Bool) (x : Nat) (hx : x ≠ 92) (t : List Nat) :
+    spellRegex quote a (x :: t)
+      = (if needsSpell quote a x then hexEsc x else [x]) ++ spellRegex quote a t := by
+  cases t with
+  | nil => simp [spellRegex]
+  | cons y ys => simp [spellRegex, hx]
+
+theorem spellRegex_pair (quote : Option Nat) (a : Bool) (c : Nat) (t : List Nat) :
+    spellRegex quote a (92 :: c :: t)
+      = (if needsSpell quote a c then hexEsc c else [92, c]) ++ spellRegex quote a t := by
+  simp [spellRegex]
+
+theorem spellRegex_append (quote : Option Nat) (a : Bool) : ∀ (pre t : List Nat),
+    atBoundary pre = true →
+    spellRegex quote a (pre ++ t) = spellRegex quote a pre ++ spellRegex quote a t := by
+  intro pre
+  fun_induction atBoundary pre with
+  | case1 => intro t _; simp [spellRegex]
+  | case2 c =>
+    intro t h
+    have hc : c ≠ 92 := by simpa using h
+    rw [List.singleton_append, spellRegex_cons_ne quote a c hc t]
+    simp [spellRegex]
+  | case3 c rest ih =>
+    intro t h
+    rw [List.cons_append, List.cons_append, spellRegex_pair, spellRegex_pair, ih t h,
+      List.append_assoc]
+  | case4 b c rest hb ih =>
+    intro t h
+    have := ih t h
+    rw [List.cons_append, spellRegex_cons_ne quote a b hb, spellRegex_cons_ne quote a b hb,
+      this, List.append_assoc]
+
+theorem needsSpell_hexDigit (quote : Option Nat) (a : Bool) (hq : quoteOk quote) (d : Nat)
+    (h : d < 16) : needsSpell quote a (hexDigit d) = false := by
+  have := hexDigit_range d h
+  have h1 : quote ≠ some (hexDigit d) := by
+    rcases hq with h | h | h <;> rw [h] <;> simp <;> omega
+  have h2 : hexDigit d ≠ 10 := by omega
+  have h3 : hexDigit d ≠ 13 := by omega
+  have h4 : 32 ≤ hexDigit d := by omega
+  have h5 : hexDigit d ≤ 126 := by omega
+  simp [needsSpell, h1, h2, h3, h4, h5]
+
+theorem needsSpell_x (quote : Option Nat) (a : Bool) (hq : quoteOk quote) :
+    needsSpell quote a 120 = false := by
+  rcases hq with h | h | h <;> rw [h] <;> cases a <;> decide
+
+/-- an escape `\xNN` is left alone -/
+theorem spellRegex_hexEsc (quote : Option Nat) (a : Bool) (hq : quoteOk quote) (c : Nat)
+    (post : List Nat) :
+    spellRegex quote a (hexEsc c ++ post) = hexEsc c ++ spellRegex quote a post := by
+  have d1 : c / 16 % 16 < 16 := Nat.mod_lt _ (by omega)
+  have d2 : c % 16 < 16 := Nat.mod_lt _ (by omega)
+  have r1 := hexDigit_range _ d1
+  have r2 := hexDigit_range _ d2
+  simp only [hexEsc, hex2, List.cons_append, List.nil_append]
+  rw [spellRegex_pair, spellRegex_cons_ne quote a _ (by omega), spellRegex_cons_ne quote a _ (by omega)]
+  simp [needsSpell_x quote a hq, needsSpell_hexDigit quote a hq _ d1, needsSpell_hexDigit quote a hq _ d2]
+
+theorem needsSpell_ne_92 (quote : Option Nat) (a : Bool) (hq : quoteOk quote) :
+    needsSpell quote a 92 = false := by
+  rcases hq with h | h | h <;> rw [h] <;> cases a <;> decide
+
+theorem hexEscapeSound_spell' (quote : Option Nat) (a : Bool) (hq : quoteOk quote) :
+    HexEscapeSound (spellRegex quote a) (needsSpell quote a) := by
+  intro pre post c hp _ hn
+  have hc : c ≠ 92 := by
+    intro e; subst e; rw [needsSpell_ne_92 quote a hq] at hn; exact Bool.false_ne_true hn
+  rw [spellRegex_append quote a pre _ hp, spellRegex_append quote a pre _ hp,
+    spellRegex_append quote a pre _ hp, spellRegex_hexEsc quote a hq, spellRegex_pair,
+    spellRegex_cons_ne quote a c hc]
+  simp [hn]
+
+/-- spelling is idempotent -/
+theorem spellRegex_idem' (quote : Option Nat) (a : Bool) (hq : quoteOk quote) : ∀ pat : List Nat,
+    spellRegex quote a (spellRegex quote a pat) = spellRegex quote a pat := by
+  intro pat
+  fun_induction spellRegex quote a pat with
+  | case1 => rfl
+  | case2 c hn => simpa [spellRegex] using spellRegex_hexEsc quote a hq c []
+  | case3 c hn => simp [spellRegex, hn]
+  | case4 c rest ih =>
+    by_cases hn : needsSpell quote a c = true
+    · simp only [hn, if_true]
+      rw [spellRegex_hexEsc quote a hq, ih]
+    · have hn' : needsSpell quote a c = false := by simpa using hn
+      simp only [hn', Bool.false_eq_true, if_false, List.cons_append, List.nil_append]
+      rw [spellRegex_pair, ih]; simp [hn']
+  | case5 x c rest hx ih =>
+    by_cases hn : needsSpell quote a x = true
+    · simp only [hn, if_true]
+      rw [spellRegex_hexEsc quote a hq, ih]
+    · have hn' : needsSpell quote a x = false := by simpa using hn
+      simp only [hn', Bool.false_eq_true, if_false, List.cons_append, List.nil_append]
+      rw [spellRegex_cons_ne quote a x hx, ih]; simp [hn']
+
+theorem quoteOk_regexQuote (pat : List Nat) : quoteOk (regexQuote pat).2 := by
+  unfold regexQuote quoteOk; split
+  · exact Or.inl rfl
+  · split
+    · exact Or.inl rfl
+    · exact Or.inr (Or.inl rfl)
+
 end FV.PyLit
